@@ -346,12 +346,12 @@ USER_DECLS = [
 USER_FUNCS = ["int32_t user_thing_drop(struct UserThing *thing);", "void user_clone(const struct UserThing *from, struct UserThing *to);", "uint32_t settings_context_flags(const struct Settings_Context *s);"]
 
 
-def random_model(seed, fnptr=False, wrapped=False, layout=False, plain=False):
+def random_model(seed, fnptr=False, wrapped=False, layout=False, plain=False, wrapped_ctx=None):
     """layout: an exported item mentions the foreign `const TypeLayout *` (what layout_checks exports);
     plain: a header without any CGlue object or group (only user declarations and functions)"""
     m = _random_model(seed, fnptr)
     if wrapped:
-        add_wrapped(m, random.Random(seed ^ 0x77a9))
+        add_wrapped(m, random.Random(seed ^ 0x77a9), wrapped_ctx)
     if plain:
         m.roots = []
     if layout:
@@ -359,12 +359,14 @@ def random_model(seed, fnptr=False, wrapped=False, layout=False, plain=False):
     return m
 
 
-def add_wrapped(m, rng):
+def add_wrapped(m, rng, force_ctx=None):
     """a `Factory` trait whose entries return wrapped objects/groups (by value, consuming, and
     borrowed through a RetTmp slot), exported as a single-trait object and inside a group"""
     def methods_of(names):
         return [x for n in names for x in m.traits[n].methods]
     ctx = rng.choice(["Arc", "Arc", ""])
+    if force_ctx is not None:
+        ctx = force_ctx
     # a group usable by-mut: no consuming entries, no Clone
     gname = None
     for g, (mand, opt) in m.groups.items():
